@@ -209,21 +209,34 @@ Definition set_row_s (rs : list (list Z)) (r : Z) (v : cval) : res (list (list Z
            end
   end.
 
+(* number of selected rows, known before any index is bounds-checked *)
+Definition sel_count (n : nat) (sel : rowsel) : nat :=
+  match sel with
+  | RSlice a b k => length (slice_indices n a b k)
+  | RList zs => length zs
+  end.
+
 Definition set_rows_s (rs : list (list Z)) (sel : rowsel) (v : rval) : res (list (list Z)) :=
-  match sel_rows (length rs) sel with
-  | None => Err EIndex
-  | Some idxs =>
-      match v with
-      | RScalar z =>
+  match v with
+  | RScalar z =>
+      match sel_rows (length rs) sel with
+      | None => Err EIndex
+      | Some idxs =>
           if is_rect rs
           then Ok (fold_left (fun acc i => upd acc i (repeat z (length (nth i acc [])))) idxs rs)
-          else match idxs with [] => Ok rs | _ => Err EReject end
-      | RRows xss =>
-          if Nat.eqb (length xss) (length idxs) then Ok (write_at rs idxs xss)
-          else match xss with
-               | [xs] => Ok (write_at rs idxs (repeat xs (length idxs)))
-               | _ => Err EReject
-               end
+          else match idxs with [] => Ok rs | _ => Err EReject end   (* a scalar in an object row slot *)
+      end
+  | RRows xss =>
+      (* numpy matches the number of rows first (one row broadcasts), then checks the indices *)
+      let cnt := sel_count (length rs) sel in
+      match (if Nat.eqb (length xss) cnt then Some xss
+             else match xss with [xs] => Some (repeat xs cnt) | _ => None end) with
+      | None => Err EReject
+      | Some vals =>
+          match sel_rows (length rs) sel with
+          | None => Err EIndex
+          | Some idxs => Ok (write_at rs idxs vals)
+          end
       end
   end.
 
